@@ -55,6 +55,8 @@ def checkSearch (c : Case) : VM Unit := do
     vstat "search.nontrivial" (if steps.length ≥ 1 then 1 else 0)
     vstat "search.candidates-of-result" cands.length
     vstat "search.multi-step" (if steps.length ≥ 3 then 1 else 0)
+    -- trajectories longer than the network has nodes (a fleet several times larger than the network)
+    vstat "search.steps-exceed-nodes" (if steps.length > c.inst.load.nodes.size then 1 else 0)
   | _, _ => pure ()
 
 end RSSched.Driver
